@@ -48,6 +48,60 @@ def pure_cases(ctx, n):
         cases.append(Case({"kind": "pure", "base": base, "args": args},
                           ["exp.safepath %s %s" % (hx(base), ",".join(hx(a) for a in args))],
                           [hx(got)], mon, any(ch not in "abzAZ09-_.()" for a in args for ch in a)))
+    # where the local adapter puts the captured stdout / stderr: the real `submit` with the process
+    # and the files it opens replaced, against `localCapturePaths` of the model
+    import maestrowf.interfaces.script.localscriptadapter as LSA
+    from maestrowf.datastructures.core.study import StudyStep
+
+    class _P(object):
+        def __init__(self, pid):
+            self.pid = pid
+
+        def communicate(self):
+            return "o", "e"
+
+        def wait(self):
+            return 0
+
+    class _Sink(object):
+        def write(self, _t):
+            pass
+
+        def __enter__(self):
+            return self
+
+        def __exit__(self, *a):
+            return False
+
+    for _ in range(max(30, n // 40)):
+        cwd = ctx.rng.choice(["/out/study/run/X.1", "/out/study/run/", "/tmp/t", "rel/ws", "/"])
+        name = "".join(ctx.rng.choice("abX1._-() ") for _ in range(ctx.rng.randint(0, 9)))
+        pid = ctx.rng.randint(1, 99999)
+        opened = []
+
+        def _open(fp, mode="r", *a, **k):
+            opened.append(str(fp))
+            return _Sink()
+        saved = (LSA.__dict__.get("start_process"), LSA.__dict__.get("open"))
+        LSA.start_process = lambda *a, **k: _P(pid)
+        LSA.open = _open
+        try:
+            st = StudyStep()
+            st.name = name
+            LSA.LocalScriptAdapter().submit(st, "/scripts/x.sh", cwd)
+        finally:
+            LSA.start_process = saved[0]
+            if saved[1] is None:
+                del LSA.open
+            else:
+                LSA.open = saved[1]
+        mon = []
+        for fp in opened:
+            if "/" not in name and os.path.dirname(fp).rstrip("/") != cwd.rstrip("/"):
+                mon.append(("writes-inside", "the local adapter writes %s for a step launched in %s" % (fp, cwd)))
+        cases.append(Case({"kind": "pure-capture", "cwd": cwd, "name": name, "pid": pid},
+                          ["exp.capture %s %s %s" % (hx(cwd), hx(name), hx(str(pid)))],
+                          [" ".join(hx(x) for x in opened)], mon, True))
     # long combination strings (many parameters with descriptive labels): two
     # names made only of characters the sanitiser keeps, differing in one
     # position anywhere, must stay distinct whatever their length
